@@ -27,7 +27,7 @@ K = dict(cbs=0.45, conv=0.25, guards=0.5, validators=0.25, sends=0.08, raises=0.
          p_values=0.0, styles=("str",), start=0.0, resume=0.0, p_construct=0.0, p_write=0.0)
 
 
-def structure(cls, ignore_on=()):
+def structure(cls, ignore_on=(), rename=None):
     """what the property compares: states, events, ordered transitions per state"""
     st = [(s.id, bool(s.initial), bool(s.final)) for s in cls.states]
     evs = sorted(str(e) for e in cls._events)
@@ -40,7 +40,8 @@ def structure(cls, ignore_on=()):
                 if sp.is_convention:
                     continue
                 g = sp.group.name
-                name = sp.attr_name if isinstance(sp.func, str) or True else str(sp.func)
+                name = sp.attr_name
+                name = (rename or {}).get(name, name)
                 if g == "COND":
                     specs["cond"].append((name, sp.expected_value))
                 elif g == "VALIDATOR":
@@ -50,8 +51,9 @@ def structure(cls, ignore_on=()):
                         continue
                     specs[g.lower()].append(name)
             rows.append((t.target.id, bool(t.internal), tuple(sorted(str(e) for e in t.events)),
-                         tuple(specs["cond"]), tuple(specs["val"]), tuple(specs["before"]), tuple(specs["on"]),
-                         tuple(specs["after"])))
+                         # (the order inside one group is not part of any property: compared as multisets)
+                         tuple(sorted(specs["cond"])), tuple(sorted(specs["val"])), tuple(sorted(specs["before"])),
+                         tuple(sorted(specs["on"])), tuple(sorted(specs["after"]))))
         per[s.id] = rows
     enter_exit = {s.id: (tuple(sp.attr_name for sp in s.enter if not sp.is_convention),
                          tuple(sp.attr_name for sp in s.exit if not sp.is_convention)) for s in cls.states}
@@ -74,8 +76,48 @@ def variants(sc, rng, limit):
                            # allowed_events order is an observation): keep this style to single-event machines
         if ev in ("assign", "event_ctor") and any(t["ev"] != sorted(t["ev"]) for t in sc["trans"]):
             continue
+        if ev == "assign" and rng.random() < 0.7:      # callbacks / an event declared with decorators
+            v["decor"] = make_decor(sc, rng)
         vs.append(v)
     return vs
+
+
+def make_decor(sc, rng):
+    """which callbacks are given by `@tr.before / .on / .after / .validators / .cond / .unless def f` instead
+    of by name (the last name of a group, provided by the machine alone: a decorated function is a
+    method of the class), and whether the event prepared by inject_decor_event is declared by
+    `@(tr1 | tr2) def event(self)`"""
+    others = [tuple(nm) for prov in sc["provs"][1:] for nm in prov]
+    sole = {tuple(nm) for nm in sc["provs"][0] if nm[0] == 0 and nm[1] < 500 and tuple(nm) not in others}
+    dev = sc.get("decor_event") if rng.random() < 0.8 else None
+    cbs = []
+    for j, t in enumerate(sc["trans"]):
+        for g in ("before", "on", "after", "val"):
+            if t[g] and tuple(t[g][-1]) in sole and rng.random() < 0.5:
+                if dev and g == "on" and t["ev"] == [dev[0]]:
+                    continue
+                cbs.append([j, g, list(t[g][-1])])
+        if t["cond"] and tuple(t["cond"][-1][0]) in sole and rng.random() < 0.5:
+            cbs.append([j, "cond" if t["cond"][-1][1] else "unless", list(t["cond"][-1][0])])
+    return {"cbs": cbs, "event": dev}
+
+
+def inject_decor_event(sc, rng):
+    """give every transition of one single-event event a common last `on` action of the machine, so
+    that the event can also be declared by decorating that action"""
+    evs = sorted({e for t in sc["trans"] for e in t["ev"]})
+    cands = [e for e in evs if all(t["ev"] == [e] for t in sc["trans"] if e in t["ev"])]
+    if not cands:
+        return sc
+    e = rng.choice(cands)
+    k = 1 + max([nm[1] for prov in sc["provs"] for nm in prov if nm[0] == 0 and nm[1] < 500] + [0])
+    sc["provs"][0].append([0, k])
+    sc["tbl"].append([0, 0, k, [], {"a": [], "r": rng.choice([None, 42, {"s": 1}])}])
+    for t in sc["trans"]:
+        if t["ev"] == [e]:
+            t["on"].append([0, k])
+    sc["decor_event"] = [e, [0, k]]
+    return sc
 
 
 def add_any(sc, rng):
@@ -143,7 +185,8 @@ def run_impl(sc):
             try:
                 ns2 = {}
                 exec(compile(eng.render_source(vv), "<c15v>", "exec"), ns2)  # noqa: S102
-                sv = structure(ns2["M"])
+                dev = (v.get("decor") or {}).get("event")
+                sv = structure(ns2["M"], rename=({f"_{eng.evname(dev[0])}_": eng.cbname(dev[1])} if dev else None))
                 ov = eng.run_impl(vv)
             except Exception as e:  # noqa: BLE001
                 bad.append([v, f"{type(e).__name__}: {e}"])
@@ -189,7 +232,9 @@ def generate(rng, tier):
             t["ev"] = sorted(t["ev"])
         if rng.random() < 0.4:
             add_any(sc, rng)
-        sc["variants"] = [{k: v[k] for k in ("evstyle", "tstyle", "itself", "sstyle", "inherit", "mixed") if k in v}
+        if rng.random() < 0.5:
+            inject_decor_event(sc, rng)       # after add_any: the fresh action belongs to that event alone
+        sc["variants"] = [{k: v[k] for k in ("evstyle", "tstyle", "itself", "sstyle", "inherit", "mixed", "decor") if k in v}
                           for v in variants(sc, rng, 10 if tier == "quick" else 24)]
         scs.append(sc)
     return scs, [("abstract machines, each rendered as baseline (event=\"a b\", a.to(b), State attributes) and in up to "
@@ -215,6 +260,9 @@ def extra_coverage(scs, obs, verdicts):
             h["tr=" + v["tstyle"]] += 1
             h["states=" + v["sstyle"]] += 1
             h["inherit" if v["inherit"] else "direct"] += 1
+            if v.get("decor"):
+                h["decorator callbacks"] += 1 if v["decor"]["cbs"] else 0
+                h["decorator-declared event"] += 1 if v["decor"]["event"] else 0
         if s.get("any"):
             h["from_.any()"] += 1
     return {"renderings_compared": sum(o.get("styles", 0) for o in obs if isinstance(o, dict)),
